@@ -412,6 +412,26 @@ def coq_thview(c, view):
     return v, tf
 
 
+# ---- wind: Coq-side content (Model/Wind.v) and view literals
+def coq_wind(c):
+    steps = '; '.join('(WStep %d %d [%s])' % (L.f32_word(float(s['hhmm'])), s['date'],
+                                               '; '.join('(%s, %s)' % (C.zlist(u), C.zlist(v)) for u, v in zip(s['fields']['U'], s['fields']['V'])))
+                      for s in c['steps'])
+    stag = 'None' if c.get('lstagger') is None else '(Some %s)' % C.zc(c['lstagger'])
+    return '{| w_nx := %d; w_ny := %d; w_nz := %d; w_stag := %s; w_dummy := %d; w_steps := [%s] |}' % (
+        c['nx'], c['ny'], c['nz'], stag, L.f32_word(0.0), steps)
+
+
+def coq_wview(c, view):
+    if not view:
+        return '{| wv_nx := 0; wv_ny := 0; wv_nz := 0; wv_ntimes := 0; wv_stamps := []; wv_u := []; wv_v := [] |}', '[]'
+    dm = view['dims']
+    f3 = lambda arr: '[' + '; '.join(C.zll([[w for row in lay for w in row] for lay in t]) for t in arr) + ']'  # noqa: E731
+    v = '{| wv_nx := %d; wv_ny := %d; wv_nz := %d; wv_ntimes := %d; wv_stamps := []; wv_u := %s; wv_v := %s |}' % (
+        dm['COL'], dm['ROW'], dm['LAY'], dm['TSTEP'], f3(view['data']['U']), f3(view['data']['V']))
+    return v, coq_pairs(view.get('TFLAG') or [])
+
+
 # ----------------------------------------------------------------------------- land use (static file, old style: 11 categories)
 def gen_landuse(rng):
     nx, ny = rng.randint(1, 3), rng.randint(1, 3)
